@@ -6,7 +6,9 @@ from gen import gen_layout, gen_gated, gen_latch, gen_scalar
 from layoutfam import matrix, run_geo
 
 MODULE = "Proofs.Props.C08"
-THEOREMS = ["Facto.boxesOverlap_symm", "Facto.disjoint_of_tile_disjoint", "Facto.relay_invariant", "Facto.guardedAdd_inv", "Facto.tile_centre_roundtrip"]
+THEOREMS = ["Facto.boxesOverlap_symm", "Facto.disjoint_of_tile_disjoint", "Facto.relay_invariant", "Facto.guardedAdd_inv", "Facto.tile_centre_roundtrip",
+            "Facto.overlaps_sound", "Facto.wires_sound", "Facto.wireFault_none", "Facto.geoCheck_sound", "Facto.GeoExample.report_clear",
+            "Facto.GeoExample.overlap_reported"]
 
 
 def run(res, tier):
